@@ -11,7 +11,7 @@ fn sig_head(s: &str) -> &str {
 }
 
 fn still(def: &PropDef, sc: &Scenario, v: &Violation) -> Option<Violation> {
-    let j = (def.judge)(sc);
+    let j = super::driver::judge(def, sc);
     j.violations
         .into_iter()
         .find(|w| w.property == v.property && w.clause == v.clause && sig_head(&w.signature) == sig_head(&v.signature))
